@@ -14,6 +14,8 @@ from .base import AutoKwargsDecorator, ExpressionDecorator
 
 _LOGGER = logging.getLogger(__name__)
 
+LISTENERS_KEY = "pyscript.webhook_triggers"
+
 
 class WebhookTriggerDecorator(TriggerDecorator, ExpressionDecorator, AutoKwargsDecorator):
     """Implementation for @webhook_trigger."""
@@ -44,7 +46,16 @@ class WebhookTriggerDecorator(TriggerDecorator, ExpressionDecorator, AutoKwargsD
         if len(self.args) == 2:
             self.create_expression(self.args[1])
 
-    async def _handler(self, hass, webhook_id, request):
+    @staticmethod
+    def _listeners(hass) -> dict[str, list["WebhookTriggerDecorator"]]:
+        #
+        # Home Assistant accepts one handler per webhook id, so the triggers that listen
+        # on the same id share one registration: webhook_id -> triggers, in start order
+        #
+        return hass.data.setdefault(LISTENERS_KEY, {})
+
+    @classmethod
+    async def _handler(cls, hass, webhook_id, request):
         func_args = {
             "trigger_type": "webhook",
             "webhook_id": webhook_id,
@@ -57,6 +68,10 @@ class WebhookTriggerDecorator(TriggerDecorator, ExpressionDecorator, AutoKwargsD
             payload_multidict = await request.post()
             func_args["payload"] = {k: payload_multidict.getone(k) for k in payload_multidict.keys()}
 
+        for trigger in list(cls._listeners(hass).get(webhook_id, [])):
+            await trigger._deliver(func_args.copy())
+
+    async def _deliver(self, func_args):
         if self.has_expression():
             if not await self.check_expression_vars(func_args):
                 return
@@ -66,19 +81,30 @@ class WebhookTriggerDecorator(TriggerDecorator, ExpressionDecorator, AutoKwargsD
     async def start(self):
         """Start the webhook trigger."""
         await super().start()
-        webhook.async_register(
-            self.dm.hass,
-            "pyscript",  # DOMAIN
-            "pyscript",  # NAME
-            self.webhook_id,
-            self._handler,
-            local_only=self.local_only,
-            allowed_methods=self.methods,
-        )
+        listeners = self._listeners(self.dm.hass)
+        if self.webhook_id not in listeners:
+            webhook.async_register(
+                self.dm.hass,
+                "pyscript",  # DOMAIN
+                "pyscript",  # NAME
+                self.webhook_id,
+                self._handler,
+                local_only=self.local_only,
+                allowed_methods=self.methods,
+            )
+            listeners[self.webhook_id] = []
+        listeners[self.webhook_id].append(self)
 
         _LOGGER.debug("webhook trigger %s listening on id %s", self.dm.name, self.webhook_id)
 
     async def stop(self):
         """Stop the webhook trigger."""
         await super().stop()
-        webhook.async_unregister(self.dm.hass, self.webhook_id)
+        listeners = self._listeners(self.dm.hass)
+        triggers = listeners.get(self.webhook_id, [])
+        if self not in triggers:
+            return
+        triggers.remove(self)
+        if not triggers:
+            del listeners[self.webhook_id]
+            webhook.async_unregister(self.dm.hass, self.webhook_id)
